@@ -484,7 +484,20 @@ func discharge(m *Machine, h HarnessSpec, rep *HarnessReport, overlay map[string
 			replayable = append(replayable, fi)
 		}
 	}
-	if len(replayable) > 0 {
+	if len(replayable) > 0 && h.RaceEntry != "" {
+		// effect findings are confirmed with the race detector: two goroutines run the read-only method on a shared value
+		out, err := nativeRace(h, overlay)
+		for _, fi := range replayable {
+			switch {
+			case err != nil:
+				rep.Failures[fi].Replay = "error: " + err.Error()
+			case strings.Contains(out, "DATA RACE"):
+				rep.Failures[fi].Replay = "reproduced: go test -race reports a DATA RACE between two concurrent calls"
+			default:
+				rep.Failures[fi].Replay = "spurious: no race reported natively"
+			}
+		}
+	} else if len(replayable) > 0 {
 		if h.NoReplay || (hasHavoc(h) && h.ReplayEntry == "") {
 			for _, fi := range replayable {
 				rep.Failures[fi].Replay = "not-replayable (abstract mode): candidate only"
@@ -703,10 +716,14 @@ func nativeRun(h HarnessSpec, overlay map[string][]byte, inputs [][]string) ([]n
 	if h.Tags != "" {
 		argv = append(argv, "-tags="+h.Tags)
 	}
+	if raceMode {
+		argv = append(argv, "-race")
+	}
 	argv = append(argv, h.Pkg)
 	cmd := exec.Command("go", argv...)
 	cmd.Dir = *repoDir
 	outb, _ := cmd.CombinedOutput()
+	lastNativeOutput = string(outb)
 	var outs []nativeOut
 	for _, l := range strings.Split(string(outb), "\n") {
 		if strings.HasPrefix(l, "VERIFREPLAY ") {
@@ -941,3 +958,23 @@ func sliceDefs(o *Obligation) []*Cond {
 	o.sliced = out
 	return out
 }
+
+
+// nativeRace runs h.RaceEntry (a function of the harness file that shares one value between two goroutines)
+// under the race detector.
+func nativeRace(h HarnessSpec, overlay map[string][]byte) (string, error) {
+	hh := h
+	hh.ReplayEntry = h.RaceEntry
+	hh.Validate = 0
+	raceMode = true
+	defer func() { raceMode = false }()
+	_, err := nativeRun(hh, overlay, [][]string{{}})
+	out := lastNativeOutput
+	if err != nil && !strings.Contains(out, "DATA RACE") {
+		return out, err
+	}
+	return out, nil
+}
+
+var raceMode bool
+var lastNativeOutput string
